@@ -2,6 +2,7 @@ import Txtpp.Lemmas.SinkFacts
 import Txtpp.Lemmas.CliFacts
 import Txtpp.Lemmas.VerifyRel
 import Txtpp.Lemmas.VerifyProject
+import Txtpp.Lemmas.VerifyLockstep
 /-!
 # Property C06 — verify passes exactly when outputs are up to date, and is read-only
 -/
@@ -106,5 +107,36 @@ theorem cli_verify_maps_to_verify_mode (p : CliParsed) (f : CliFlags) (b : CliBu
     ∀ fl bl n, ({ p with flags := fl, build := bl, needed := n } : CliParsed).config = p.config :=
   ⟨(verify_mode p f b h).1, (verify_mode p f b h).2.1, (verify_mode p f b h).2.2.1, (verify_mode p f b h).2.2.2.1,
    (verify_mode p f b h).2.2.2.2, fun fl bl n => sub_ignores_top_level p _ h fl bl n⟩
+
+/-- **whole project, concrete model of `Txtpp::run` (soundness of verify).** If the verify run of a tree
+succeeds then the only-if-needed run of the same tree succeeds too and leaves the same bytes at every
+path: it found every output already equal to what it computed. The verify run and the only-if-needed
+run are in lockstep from identical trees, so no condition on what the sources read is needed; the
+executable side condition `trVerify` only asks that no output path is a directory. -/
+theorem verify_ok_means_nothing_to_rebuild (cfg : Cfg) (fs : FS) (inputs : List Str) (Sfin : List Path)
+    (hst : projStale cfg.toNeeded trVerify fs inputs [] = some Sfin)
+    (hok : (runProject cfg.toVerify fs inputs).1 = .ok) :
+    (runProject cfg.toNeeded fs inputs).1 = .ok ∧
+    ∀ q, (runProject cfg.toNeeded fs inputs).2.file? q = (runProject cfg.toVerify fs inputs).2.file? q :=
+  verify_project_ok_means_needed_finds_all_equal cfg fs inputs Sfin hst hok
+
+/-- … and (with the whole-project theorem of C09) a normal build of that tree succeeds and leaves exactly
+the bytes of the verified tree: every output was byte-identical to what a build produces -/
+theorem verify_ok_means_build_reproduces_the_tree (cfg : Cfg) (hb : cfg.mode = .build) (fs : FS) (inputs : List Str) (Sv : List Path)
+    (hstV : projStale cfg.toNeeded trVerify fs inputs [] = some Sv)
+    (hstN : projStale cfg (trNeeded cfg) fs inputs [] = some [])
+    (hok : (runProject cfg.toVerify fs inputs).1 = .ok) :
+    (runProject cfg fs inputs).1 = .ok ∧
+    ∀ q, (runProject cfg fs inputs).2.file? q = (runProject cfg.toVerify fs inputs).2.file? q :=
+  verify_project_ok_means_build_reproduces cfg hb fs inputs Sv hstV hstN hok
+
+/-- the pass-level step of that lockstep: from trees holding the same files, the verify pass fails or
+both passes have the same outcome and leave the same files -/
+theorem verify_pass_fails_or_matches_needed_pass (cfg : Cfg) (a b : FS) (src : Path) (first : Bool) (hag : Agree [] a b)
+    (hnd : ∀ o, outputPath src = some o → a.isDir o = false) :
+    (runPass cfg.toVerify b src first).1 = .err ∨
+    ((runPass cfg.toNeeded a src first).1 = (runPass cfg.toVerify b src first).1 ∧
+     Agree [] (runPass cfg.toNeeded a src first).2 (runPass cfg.toVerify b src first).2) :=
+  needed_vs_verify_pass cfg a b src first hag hnd
 
 end C06
